@@ -169,6 +169,16 @@ CLAIMED = {
             "the extension prefix. Corrupted drawings must be rejected on the expected clause.",
             "Display names and type strings are taken from the same op.name()/str(type) the renderer uses; only the graphviz Python package is needed.",
             "DESIGN.md §5 C20"),
+    "C17": ("TLA+ SchemaAgreement.tla enumerates base documents (one per constructor path of the wire vocabulary); differential "
+            "acceptance of single-point mutations between the published schema files and the pydantic codec rebuilt per configuration; "
+            "regenerated vs published schema definitions",
+            "Exploration, not proof: for every TLC-enumerated base document and every position, five mutation classes whose JSON-Schema and "
+            "pydantic semantics coincide (delete key, unknown key, unknown discriminator, container:=7, scalar:=[], value:=null) are "
+            "applied; published schema (jsonschema) and codec (model_validate_json after _pydantic_rebuild in the generator's order) "
+            "must give the same verdict for the strict and lax configurations of the HUGR, testing, extension and package roots; the "
+            "regenerated definitions must equal the published ones up to the void `additionalProperties: true`; version strings must agree.",
+            "Cannot see differences that do not change acceptance on the enumerated space (titles, descriptions, defaults of accepted documents).",
+            "DESIGN.md §5 C17"),
 }
 
 NOT_YET = "check not built yet in this round (planned: see DESIGN.md §5); nothing is claimed for it until its TLA+ spec and conformance legs exist"
@@ -187,7 +197,7 @@ def main():
             "evidence_file": f"/verif/evidence/{pid}.json",
             "replay_cmd_template": f"./check {pid} --replay {{path}}",
             "engine": "tlc-conformance",
-            "level_claimed": {"category": "model_checking", "text": text, "design_ref": ref},
+            "level_claimed": {"category": "exploration" if pid == "C17" else "model_checking", "text": text, "design_ref": ref},
             "level_note": note,
             "technique": tech,
         })
